@@ -38,8 +38,9 @@ def write(pid, tier, seed, col, meta, wall, new=0, known=()):
         "wall_s": round(float(wall), 2),
         "violations": int(new),
     }
-    os.makedirs(os.path.join(HERE, "evidence"), exist_ok=True)
-    path = os.path.join(HERE, "evidence", "%s.json" % pid)
+    base = os.environ.get("VERIF_OUT", HERE)  # mutant trials on scratch copies write elsewhere
+    os.makedirs(os.path.join(base, "evidence"), exist_ok=True)
+    path = os.path.join(base, "evidence", "%s.json" % pid)
     tmp = path + ".tmp"
     with open(tmp, "w") as f:
         json.dump(ev, f, indent=1, default=str)
